@@ -67,7 +67,7 @@ PROPS = {
                 rule="unconstrained qp4/qpsp/rosen problems vs scipy L-BFGS-B (first 12 iterations, until a documented deviation or round-off) and final values on convex box problems; non-trivial = >=5 evaluation points compared",
                 explanation="the reference is a compiled binary without a model: Coq pins the constants, first-step rule and theta formula regenerated from the source; agreement with the binary is exploration",
                 assumptions=COMMON_ASSUME),
-    "C13": dict(monitor=D2, level="proof", corr=["memory", "driver"],
+    "C13": dict(monitor=D2, level="proof", corr=["driver:upd"],
                 rule="identity update vs none (bit equality), rescale / reweight / adversarial rewrites at iteration k; non-trivial = rewrite with >=2 pairs in memory",
                 explanation="theorems filter_spec / filter_id on the memory model and C13_identity on the driver model; restart clause in exact arithmetic",
                 assumptions=COMMON_ASSUME),
